@@ -274,7 +274,7 @@ func runC07(p *core.Prog, r *core.Report) {
 		}
 		// edges: cached output present; store not to be written
 		var cachedEdges, notWrittenEdges []core.Edge
-		core.Instrs(fn, func(in ssa.Instruction) {
+		core.InstrsDeep(fn, func(in ssa.Instruction) {
 			ifi, ok := in.(*ssa.If)
 			if !ok || !loop.Body[ifi.Block()] {
 				return
@@ -448,7 +448,7 @@ func runC07(p *core.Prog, r *core.Report) {
 			unit := pc.(ssa.CallInstruction).Common().Args[1]
 			holder := pc.Parent()
 			var notCompleted []core.Edge
-			core.Instrs(holder, func(in ssa.Instruction) {
+			core.InstrsDeep(holder, func(in ssa.Instruction) {
 				ifi, ok := in.(*ssa.If)
 				if !ok {
 					return
@@ -727,7 +727,7 @@ func errValueOf(call ssa.Instruction) []ssa.Value {
 func errEdges(fn *ssa.Function, call ssa.Instruction, wantNil bool) []core.Edge {
 	var out []core.Edge
 	evs := errValueOf(call)
-	core.Instrs(fn, func(in ssa.Instruction) {
+	core.InstrsDeep(fn, func(in ssa.Instruction) {
 		ifi, ok := in.(*ssa.If)
 		if !ok {
 			return
@@ -882,7 +882,7 @@ func checkExecoutLoadedFlag(p *core.Prog, r *core.Report, rule string) {
 	r.Touch(core.FuncName(fl))
 	loaded := p.Field(pkgExecout, "File", "loaded")
 	var nilEdges []core.Edge
-	core.Instrs(fl, func(in ssa.Instruction) {
+	core.InstrsDeep(fl, func(in ssa.Instruction) {
 		ifi, ok := in.(*ssa.If)
 		if !ok {
 			return
@@ -918,7 +918,7 @@ func checkExecoutLoadedFlag(p *core.Prog, r *core.Report, rule string) {
 	r.Check(nL > 0 && okLoaded, rule, "execout.File.Load/loaded", "a cached-output file is flagged loaded only when the load returned no error (the flag is reachable only over an `err == nil` edge)", "loaded can be set although the load failed", p.Pos(fl.Pos()))
 	// and the short-circuit at the top answers from the flag alone
 	okShort := false
-	core.Instrs(fl, func(in ssa.Instruction) {
+	core.InstrsDeep(fl, func(in ssa.Instruction) {
 		ifi, ok := in.(*ssa.If)
 		if !ok {
 			return
